@@ -28,6 +28,20 @@ class DetectVarNames( ast.NodeVisitor ):
     else:
       self._get_full_name = self._get_full_name_starting_py39
 
+  def _const_expr( self, v ):
+    """ ("expr", code) if v is an arithmetic expression of numbers and
+    closure / global variables only ( s.out[ nbits-1 ] ), else None. Like
+    the names of such variables it is evaluated per component instance. """
+    if not isinstance( v, (ast.BinOp, ast.UnaryOp) ):
+      return None
+    for x in ast.walk( v ):
+      if isinstance( x, ast.Name ):
+        if x.id in self.locals or ( x.id not in self.closure and x.id not in self.globals ):
+          return None
+      elif not isinstance( x, (ast.BinOp, ast.UnaryOp, ast.operator, ast.unaryop, ast.Constant, ast.expr_context) ):
+        return None
+    return ( "expr", compile( ast.Expression( v ), "<index>", "eval" ) )
+
   # Helper function to get the full name containing "s"
 
   def _get_full_name_up_to_py38( self, input_node ):
@@ -60,6 +74,8 @@ class DetectVarNames( ast.NodeVisitor ):
         if   x in self.locals:  pass # assigned in the block itself
         elif x in self.closure: low = (True, x)
         elif x in self.globals: low = (False, x)
+      elif self._const_expr( lower ) is not None:
+        low = self._const_expr( lower )
 
       if upper is None:
         up = None
@@ -70,6 +86,8 @@ class DetectVarNames( ast.NodeVisitor ):
         if   x in self.locals:  pass # assigned in the block itself
         elif x in self.closure: up = (True, x)
         elif x in self.globals: up = (False, x)
+      elif self._const_expr( upper ) is not None:
+        up = self._const_expr( upper )
 
       if low != "?" and up != "?":
         slices.append( slice(low, up) )
@@ -99,6 +117,8 @@ class DetectVarNames( ast.NodeVisitor ):
         elif isinstance( v, ast.Call ): # int(x)
           for x in v.args:
             self.visit(x)
+        elif self._const_expr( v ) is not None:
+          n = self._const_expr( v ) # e.g. s.x[ nbits-1 ]
         elif isinstance( v, (ast.Subscript, ast.BinOp, ast.UnaryOp, ast.Compare, ast.IfExp) ):
           self.visit( v ) # computed index, e.g. s.x[ s.sel ^ 1 ] or s.x[ s.sel[0:2] ]
 
@@ -170,6 +190,8 @@ class DetectVarNames( ast.NodeVisitor ):
         if   x in self.locals:  pass # assigned in the block itself
         elif x in self.closure: low = (True, x)
         elif x in self.globals: low = (False, x)
+      elif self._const_expr( lower ) is not None:
+        low = self._const_expr( lower )
 
       if upper is None:
         up = None
@@ -180,6 +202,8 @@ class DetectVarNames( ast.NodeVisitor ):
         if   x in self.locals:  pass # assigned in the block itself
         elif x in self.closure: up = (True, x)
         elif x in self.globals: up = (False, x)
+      elif self._const_expr( upper ) is not None:
+        up = self._const_expr( upper )
 
       if low != "?" and up != "?":
         slices.append( slice(low, up) )
@@ -209,6 +233,8 @@ class DetectVarNames( ast.NodeVisitor ):
         elif isinstance( v, ast.Call ): # int(x)
           for x in v.args:
             self.visit(x)
+        elif self._const_expr( v ) is not None:
+          n = self._const_expr( v ) # e.g. s.x[ nbits-1 ]
         elif isinstance( v, (ast.Subscript, ast.BinOp, ast.UnaryOp, ast.Compare, ast.IfExp) ):
           self.visit( v ) # computed index, e.g. s.x[ s.sel ^ 1 ] or s.x[ s.sel[0:2] ]
         elif isinstance( v, ast.Slice ): # s.sel, may be constant
